@@ -23,6 +23,7 @@ import Cog.Drv.SrcDenDrv
 import Cog.Drv.FrontDrv
 import Cog.Drv.FrontOaDrv
 import Cog.Drv.KeepsDrv
+import Cog.Drv.FrontEmitDrv
 open Cog.Drv
 
 def handle (line : String) : String :=
@@ -82,6 +83,7 @@ def handleIO (line : String) : IO String := do
   | "oafdoc" :: rest => oafdocLine (" ".intercalate rest)
   | "jsfkeeps" :: rest => jsfkeepsLine (" ".intercalate rest)
   | "jsfc08" :: rest => jsfc08Line (" ".intercalate rest)
+  | "jsfc12" :: rest => jsfc12Line (" ".intercalate rest)
   | "oafkeeps" :: rest => oafkeepsLine (" ".intercalate rest)
   | "oafc08" :: rest => oafc08Line (" ".intercalate rest)
   | "srcpy" :: rest => srcpyLine (" ".intercalate rest)
